@@ -206,6 +206,7 @@ type harnessRun struct {
 	Stubs   []string
 	Replays int // native re-validations that agreed
 	ReplayMismatch []string
+	Cross, CrossUnknown, CrossDisagree int64
 	Confirmed []string // violations confirmed natively -> replay paths
 	Unconfirmed []string
 }
@@ -220,6 +221,7 @@ func runHarness(ld *loaded, prop string, h HarnessSpec, tier int, known map[stri
 		Z3: envOr("VX_Z3", "/usr/bin/z3"), QueryMS: opts.QueryMS, Workers: workers(),
 		MaxSteps: opts.MaxSteps, MaxPaths: opts.MaxPaths, Preempt: opts.Preempt, PermuteMaps: opts.PermuteMaps, SelectFork: opts.SelectFork, Trace: opts.Trace,
 		Known: known, Tier: tier, StopAtFirstViolation: true, SymbolicChoices: os.Getenv("VX_CONCRETE_CHOICES") == "",
+		CrossCheckEvery: 2000,
 	}
 	if opts.TimeoutS > 0 {
 		cfg.Deadline = time.Now().Add(time.Duration(opts.TimeoutS) * time.Second)
@@ -232,7 +234,9 @@ func runHarness(ld *loaded, prop string, h HarnessSpec, tier int, known map[stri
 	t0 := time.Now()
 	ex := interp.NewExplorer(cfg, entry)
 	st := ex.Run()
-	return &harnessRun{Spec: h, Stats: st, WallS: time.Since(t0).Seconds(), Stubs: cfg.Stubs()}
+	hr := &harnessRun{Spec: h, Stats: st, WallS: time.Since(t0).Seconds(), Stubs: cfg.Stubs()}
+	hr.Cross, hr.CrossUnknown, hr.CrossDisagree = cfg.CrossStats()
+	return hr
 }
 
 func workers() int {
@@ -519,6 +523,7 @@ func cmdCheck(args []string) {
 			"solver_s": float64(st.SolverNS) / 1e9, "assertion_checks": st.AssertChecks, "assertions_reached": st.AssertsHit,
 			"ssa_steps": st.Steps, "max_decision_depth": st.MaxDecisions, "wall_s": r.WallS,
 			"race_candidate_pairs": st.RacePairs, "race_queries": st.RaceQueries, "trace_sync_events": st.TraceEvents,
+			"cross_solver_rechecks": r.Cross, "cross_solver_unknown": r.CrossUnknown, "cross_solver_disagreements": r.CrossDisagree,
 			"native_revalidations_ok": r.Replays, "native_mismatches": r.ReplayMismatch,
 			"violations_confirmed": r.Confirmed, "counterexamples_unconfirmed": r.Unconfirmed,
 			"natively_replayable": !r.Spec.NoNative,
